@@ -137,6 +137,7 @@ CONC_FOCUS = {
     "C02": {("AddVersion", "AddVersion")},
     "C07": {("AddVersion", "AddVersion")},
     "C08": {("AddVersion", "GetChildVersion")},
+    "C10": {("AddSnapshot", "AddSnapshot"), ("AddSnapshot", "AddVersion")},
     "C11": {("AddSnapshot", "GetSnapshot"), ("AddSnapshot", "AddVersion"), ("AddVersion", "GetSnapshot"), ("AddSnapshot", "AddSnapshot")},
 }
 
@@ -198,6 +199,24 @@ def engine_seq(pid, tier, evidence=True):
     twin_inst = [dict(j, id=j["id"] + "-2i", run=run0 + i, instances=2) for i, j in enumerate(jx for jx in jobs[:ntours] if rng.random() < (0.08 if tier == "quick" else 0.3))]
     run0 += len(twin_inst)
     jobs += twin_inst
+    if pid == "C11":
+        # uploads that are refused or break in the middle must never become the served snapshot
+        import httpplan
+        cases, _gst = httpplan.grammar_cases(1, [0, 1, 20], [1, 3])
+        cases = [c for c in cases if c["route"] == "as" and c["method"] == "POST"]
+        gj = []
+        for b in ("inmemory", "sqlite"):
+            for drv in ("http", "sock"):
+                steps = list(httpplan.PREFIX)
+                for c in cases:
+                    # a fresh latest version first, so that a snapshot for it WOULD be accepted if the upload were taken
+                    st_ = httpplan.case_step(rng, c, c=1)
+                    st_["arg"] = {"sym": "latest"}
+                    steps += [{"op": "AddVersion", "c": 1, "arg": {"sym": "latest"}}, st_, {"op": "GetSnapshot", "c": 1}]
+                gj.append({"id": f"c11g-{b}-{drv}", "run": run0, "backend": b, "driver": drv, "cfg": {"days": 2, "versions": 3}, "nclients": 3,
+                           "steps": steps, "first_free": 1, "kind": "grammar"})
+                run0 += 1
+        jobs += gj
     if pid == "C18":
         # refused requests (the request grammar's malformed cases) must leave everything untouched as well
         import httpplan
@@ -848,6 +867,30 @@ def engine_conc(pid, tier, evidence=True, focus=None):
     t3 = time.time()
     log(f"[conc] tlc {t1-t0:.1f}s harness {t2-t1:.1f}s judge {t3-t2:.1f}s rounds {total}")
     found = conc_collect(pid, viols, jobs=jobs)
+    two_inst = None
+    if focus is None and pid == "C03":
+        # "through several server instances": requests one after the other, alternating between two server
+        # objects on the same data (a second SqliteStorage object on the directory); the one-at-a-time order
+        # is the real order, so every sequential predicate must hold
+        hj = seqplan.history_jobs(rng, 16 if tier == "quick" else 120, 80, 1)
+        for j in hj:
+            j["instances"] = 2
+        wd2 = os.path.join(wd, "twoinst")
+        os.makedirs(wd2)
+        summ2, f2 = run_harness_sharded(binary, "seq", {"threads": 1, "needs_clock": True, "jobs": hj}, wd2)
+        v2, tot2 = judge(split_trace(f2, os.path.join(wd2, "chunks")))
+        jb = {j["run"]: j for j in hj}
+        for v in v2:
+            names_ = [x for x in v["names"] if x not in NOTE_NAMES]
+            if not names_ or len(found) >= 40:
+                continue
+            ev = load_event(v["file"], v["line"])
+            job = jb.get(v["run"], {})
+            found.append(dict(sig=dict(engine="seq2i", names=sorted(names_), op=ev["req"]["op"], resp=ev["resp"]["kind"], backend=job.get("backend")),
+                              what=f"C03 (two server instances on one data directory, requests one after the other): predicate(s) {names_} false at step {v['i']} "
+                                   f"({job.get('backend')}/{job.get('driver')}): {json.dumps(ev['req'])} -> {json.dumps(ev['resp'])}",
+                              replay=dict(engine="seq", predicate=names_[0], job=dict(job, steps=job.get("steps", [])[: max(0, v["i"]) + 1]))))
+        two_inst = dict(histories=len(hj), events_judged=tot2)
     if not evidence:
         shutil.rmtree(wd, ignore_errors=True)
         return dict(found=found, rounds=total, model_runs=model_runs)
@@ -865,6 +908,7 @@ def engine_conc(pid, tier, evidence=True, focus=None):
     coverage = dict(states=states, transitions=transitions, traces_validated_against_impl=total, samples=samples,
                     model_runs=model_runs, dfs_jobs=sum(1 for j in jobs if j["mode"] == "dfs"), model_schedule_rounds=len(scheds_all),
                     random_jobs=ntr, dfs_jobs_hitting_round_cap=len(incomplete), predicate_failures_all_properties=dict(per_name),
+                    two_instance_sequential=two_inst,
                     rule="TLC explores every interleaving of 2-3 request programs at storage-call granularity (SyncStorage, both backend semantics) and "
                          "checks linearizability; a sample of its terminal schedules, a bounded-exhaustive gate-level exploration of all request pairs "
                          "and seeded random triples are executed on the real code under the controlled scheduler; TLC judges each recorded round "
